@@ -82,14 +82,36 @@ Definition qidx (q : list Z) (i : Z) : gres :=
   then match nth_error q (Z.to_nat i) with Some v => GVal v | None => GUb end
   else GUb.
 
-Definition get_value_lk (s : pubq) (h : nat) (t : Z) : gres :=
+(* get_value_lk as it is now (after fixes/C16-skip-dup): the skipping modes move the reader to the value they return,
+   and a reader at or behind the end of the stream gets end of stream in every mode *)
+Definition get_value_lk (s : pubq) (h : nat) (t : Z) : pubq * gres :=
   let l := rget (regs s) h in
-  if r_kicked l || (r_pos l =? qpos s) then GEos else                  (* 235 *)
-  let relpos := wrap (qpos s - r_pos l - 1) in                         (* 239 / 244 *)
+  if r_kicked l || (qpos s <=? r_pos l) then (s, GEos) else              (* l._kicked || l._pos >= _pos *)
+  let relpos := wrap (qpos s - r_pos l - 1) in
   if t =? 1 then
-    qidx (qd s) (if zlen (qd s) <=? relpos then wrap (zlen (qd s) - 1) else relpos)   (* 245-246 *)
-  else if t =? 2 then qidx (qd s) 0                                    (* 249 *)
-  else if zlen (qd s) <=? relpos then GEos else qidx (qd s) relpos.    (* 240-241 *)
+    if zlen (qd s) <=? relpos then                                       (* clamp to the oldest retained value *)
+      let rp := wrap (zlen (qd s) - 1) in
+      match qidx (qd s) rp with
+      | GVal v => (set_reg s h (with_pos l (wrap (qpos s - rp - 1))), GVal v)   (* l._pos = _pos - relpos - 1 *)
+      | g => (s, g)
+      end
+    else (s, qidx (qd s) relpos)
+  else if t =? 2 then
+    match qidx (qd s) 0 with
+    | GVal v => (set_reg s h (with_pos l (wrap (qpos s - 1))), GVal v)   (* l._pos = _pos - 1; return _q[0] *)
+    | g => (s, g)
+    end
+  else if zlen (qd s) <=? relpos then (s, GEos) else (s, qidx (qd s) relpos).
+
+(* the same function before fixes/C16-skip-dup (regression witness only) *)
+Definition get_value_lk_old (s : pubq) (h : nat) (t : Z) : pubq * gres :=
+  let l := rget (regs s) h in
+  if r_kicked l || (r_pos l =? qpos s) then (s, GEos) else
+  let relpos := wrap (qpos s - r_pos l - 1) in
+  if t =? 1 then
+    (s, qidx (qd s) (if zlen (qd s) <=? relpos then wrap (zlen (qd s) - 1) else relpos))
+  else if t =? 2 then (s, qidx (qd s) 0)
+  else if zlen (qd s) <=? relpos then (s, GEos) else (s, qidx (qd s) relpos).
 
 (* push_lk, lines 255-275.  The loop 259-267 has three independent effects, written as three functions:
    clear every used slot's awaiter, collect those awaiters in slot order, and compute need_len. *)
@@ -139,7 +161,7 @@ Definition kick_lk (s : pubq) (sub : Z) : pubq * list Z :=
    Object ids (sid) are chosen by the op and never reused; the id is also the `const subscriber*`
    identity handed to the queue.  palive = the publisher<T> object still exists (its destructor closes
    the queue; the queue itself lives on through the subscribers' shared_ptr). *)
-Record sobj := mkSo { s_h : nat; s_mode : Z; s_live : bool }.
+Record sobj := mkSo { s_h : nat; s_mode : Z; s_live : bool; s_blk : bool }.   (* s_blk: a thread is parked inside a blocking next() *)
 Record tst := mkT { pq : pubq; objs : list (option sobj); nawt : Z; palive : bool }.
 Definition tst0 (mn mx : Z) : tst := mkT (pubq0 mn mx) [] 0 true.
 
@@ -157,6 +179,9 @@ Inductive op :=
 | OClose                        (* publisher::close() *)
 | OPosition (s : nat)           (* subscriber::position() *)
 | ODestroyPub                   (* ~publisher *)
+| OBlock (s : nat)              (* bool(next()) / begin() on a helper thread: runs until it returns or parks *)
+| OBlockFin (s : nat)           (* lets the parked helper thread of s (woken meanwhile) return *)
+| OPoll (s : nat)               (* next_ready() *)
 | OBad.
 
 (* observation: status (0 ok, 1 rejected, -999 undefined behaviour), three scalars, resumed awaiter ids *)
@@ -171,17 +196,24 @@ Definition live_obj (e : tst) (s : nat) : option sobj :=
   | Some o => if s_live o then Some o else None
   | None => None
   end.
+(* live and no thread parked inside a blocking next() on it *)
+Definition free_obj (e : tst) (s : nat) : option sobj :=
+  match live_obj e s with
+  | Some o => if s_blk o then None else Some o
+  | None => None
+  end.
 Definition valid_mode (t : Z) : bool := (0 <=? t) && (t <=? 2).
 Definition HALF : Z := 4611686018427387904.   (* 2^62: positions on the wire are below this *)
 Definition pos_of (s : pubq) (h : nat) : Z := r_pos (rget (regs s) h).   (* queue::position, line 101 *)
 
 Definition with_pq (e : tst) (q : pubq) : tst := mkT q (objs e) (nawt e) (palive e).
 Definition new_sub (e : tst) (s : nat) (t : Z) (r : pubq * nat) : tst * obs :=
-  (mkT (fst r) (put (objs e) s (Some (mkSo (snd r) t true))) (nawt e) (palive e),
+  (mkT (fst r) (put (objs e) s (Some (mkSo (snd r) t true false))) (nawt e) (palive e),
    ok3 (Z.of_nat (snd r)) (pos_of (fst r) (snd r)) 0).
 
-(* `sus` is the advance_suspend_lk variant (current code / code before the fix) *)
-Definition step_gen (sus : pubq -> nat -> Z -> pubq * bool) (e : tst) (x : op) : tst * obs :=
+(* `sus` / `gv` are the advance_suspend_lk / get_value_lk variants (current code / code before the fixes) *)
+Definition step_gen (sus : pubq -> nat -> Z -> pubq * bool) (gv : pubq -> nat -> Z -> pubq * gres)
+                    (e : tst) (x : op) : tst * obs :=
   match x with
   | OPub v => if palive e then (with_pq e (fst (push1 (pq e) v)), okw (snd (push1 (pq e) v))) else (e, rejected)
   | OBatch vs => if palive e then (with_pq e (fst (push_batch (pq e) vs)), okw (snd (push_batch (pq e) vs)))
@@ -204,23 +236,24 @@ Definition step_gen (sus : pubq -> nat -> Z -> pubq * bool) (e : tst) (x : op) :
       | _, _ => (e, rejected)
       end
   | OReady s =>
-      match live_obj e s with
+      match free_obj e s with
       | None => (e, rejected)
       | Some o => let r := advance_lk (pq e) (s_h o) (s_mode o) in
                   (with_pq e (fst r), ok3 (b2z (snd r)) (pos_of (fst r) (s_h o)) 0)
       end
   | OSuspend s =>
-      match live_obj e s with
+      match free_obj e s with
       | None => (e, rejected)
       | Some o => let r := sus (pq e) (s_h o) (nawt e) in
                   (mkT (fst r) (objs e) (nawt e + 1) (palive e), ok3 (b2z (snd r)) (pos_of (fst r) (s_h o)) (nawt e))
       end
   | OGet s =>
-      match live_obj e s with
+      match free_obj e s with
       | None => (e, rejected)
-      | Some o => match get_value_lk (pq e) (s_h o) (s_mode o) with
-                  | GVal v => (e, ok3 1 v (pos_of (pq e) (s_h o)))
-                  | GEos => (e, ok3 0 0 (pos_of (pq e) (s_h o)))
+      | Some o => let r := gv (pq e) (s_h o) (s_mode o) in
+                  match snd r with
+                  | GVal v => (with_pq e (fst r), ok3 1 v (pos_of (fst r) (s_h o)))
+                  | GEos => (with_pq e (fst r), ok3 0 0 (pos_of (fst r) (s_h o)))
                   | GUb => (e, ub_obs)
                   end
       end
@@ -232,9 +265,9 @@ Definition step_gen (sus : pubq -> nat -> Z -> pubq * bool) (e : tst) (x : op) :
                   else (e, rejected)
       end
   | OLeave s =>
-      match live_obj e s with
+      match free_obj e s with
       | None => (e, rejected)
-      | Some o => (mkT (leave_lk (pq e) (s_h o)) (put (objs e) s (Some (mkSo (s_h o) (s_mode o) false))) (nawt e)
+      | Some o => (mkT (leave_lk (pq e) (s_h o)) (put (objs e) s (Some (mkSo (s_h o) (s_mode o) false false))) (nawt e)
                        (palive e), ok3 0 0 0)
       end
   | OClose => if palive e then (with_pq e (fst (close_q (pq e))), okw (snd (close_q (pq e)))) else (e, rejected)
@@ -245,19 +278,61 @@ Definition step_gen (sus : pubq -> nat -> Z -> pubq * bool) (e : tst) (x : op) :
       end
   | ODestroyPub => if palive e then (mkT (fst (close_q (pq e))) (objs e) (nawt e) false, okw (snd (close_q (pq e))))
                    else (e, rejected)
+  | OBlock _ | OBlockFin _ | OPoll _ => (e, rejected)      (* composite: see stepx_gen *)
   | OBad => (e, rejected)
   end.
 
-Definition step := step_gen advance_suspend_lk.
-Definition step_old := step_gen advance_suspend_lk_old.
+Definition step := step_gen advance_suspend_lk get_value_lk.
 
-Fixpoint run_gen (sus : pubq -> nat -> Z -> pubq * bool) (e : tst) (l : list op) : list obs * tst :=
+(* composite operations are sequences of the locked steps above; every locked step prints its own observation
+   line.  bool(next()) = operator bool: await_ready, and if not ready sync() = await_ready again, subscribe,
+   (block), then await_resume.  next_ready() = await_ready, and if ready await_resume. *)
+Definition set_blk (e : tst) (s : nat) (o : sobj) (b : bool) : tst :=
+  mkT (pq e) (put (objs e) s (Some (mkSo (s_h o) (s_mode o) (s_live o) b))) (nawt e) (palive e).
+Definition bump (e : tst) : tst := mkT (pq e) (objs e) (nawt e + 1) (palive e).
+
+Definition stepx_gen (sus : pubq -> nat -> Z -> pubq * bool) (gv : pubq -> nat -> Z -> pubq * gres)
+                     (e : tst) (x : op) : tst * list obs :=
+  let st := step_gen sus gv in
+  match x with
+  | OBlock s =>
+      match free_obj e s with
+      | None => (e, [rejected])
+      | Some o =>
+          let r1 := st e (OReady s) in
+          if o_a (snd r1) =? 1 then let g := st (fst r1) (OGet s) in (bump (fst g), [snd r1; snd g]) else
+          let r2 := st (fst r1) (OReady s) in
+          if o_a (snd r2) =? 1 then let g := st (fst r2) (OGet s) in (bump (fst g), [snd r1; snd r2; snd g]) else
+          let r3 := st (fst r2) (OSuspend s) in     (* uses awaiter id nawt e and bumps the counter *)
+          if o_a (snd r3) =? 1 then (set_blk (fst r3) s o true, [snd r1; snd r2; snd r3]) else
+          let g := st (fst r3) (OGet s) in (fst g, [snd r1; snd r2; snd r3; snd g])
+      end
+  | OBlockFin s =>
+      match live_obj e s with
+      | Some o => if s_blk o && match r_awt (rget (regs (pq e)) (s_h o)) with None => true | Some _ => false end
+                  then let g := st (set_blk e s o false) (OGet s) in (fst g, [snd g])
+                  else (e, [rejected])
+      | None => (e, [rejected])
+      end
+  | OPoll s =>
+      match free_obj e s with
+      | None => (e, [rejected])
+      | Some o =>
+          let r1 := st e (OReady s) in
+          if o_a (snd r1) =? 1 then let g := st (fst r1) (OGet s) in (fst g, [snd r1; snd g]) else (fst r1, [snd r1])
+      end
+  | _ => (fst (st e x), [snd (st e x)])
+  end.
+Definition stepx := stepx_gen advance_suspend_lk get_value_lk.
+
+Fixpoint run_gen (sus : pubq -> nat -> Z -> pubq * bool) (gv : pubq -> nat -> Z -> pubq * gres)
+                 (e : tst) (l : list op) : list obs * tst :=
   match l with
   | [] => ([], e)
-  | x :: t => let r := run_gen sus (fst (step_gen sus e x)) t in
-              (snd (step_gen sus e x) :: fst r, snd r)
+  | x :: t => let r := run_gen sus gv (fst (stepx_gen sus gv e x)) t in
+              (snd (stepx_gen sus gv e x) ++ fst r, snd r)
   end.
-Definition run_from := run_gen advance_suspend_lk.
+Definition run_from := run_gen advance_suspend_lk get_value_lk.
 
 (* ====================== reference monitor (specification side) ======================
    The monitor sees only ops and observations (never the queue's state).  It keeps the published log,
@@ -405,8 +480,10 @@ Definition mon_step (m : mon) (x : op) (o : obs) : mon :=
                 let drained := if m_mode r =? 0 then consumed r =? npub m else m_cur r =? npub m + 1 in
                 set_sub m s (mkSr true (m_mode r) PIdle (m_start r) (m_cur r) (m_deliv r) true
                                   (m_kicked r || m_lost r || (m_closed m && drained)) (m_kicked r) (m_lost r))
-              else   (* a value: recorded; a kicked subscriber must get end of stream instead *)
-                add_bad (set_sub m s (mkSr true (m_mode r) PIdle (m_start r) (m_cur r)
+              else   (* a value: recorded with the position reported after the step; a kicked subscriber must get
+                        end of stream instead *)
+                if (HALF <=? o_c o) then set_viol m else
+                add_bad (set_sub m s (mkSr true (m_mode r) PIdle (m_start r) (o_c o)
                                            ((o_c o, o_b o, npub m) :: m_deliv r) false (m_eos_ok r) (m_kicked r)
                                            (m_lost r)))
                         (m_kicked r)
@@ -442,13 +519,45 @@ Definition mon_step (m : mon) (x : op) (o : obs) : mon :=
       | Some r => if negb (m_live r) then set_viol m else add_bad m (negb (o_a o =? m_cur r))
       | None => set_viol m
       end
+  | OBlock _ | OBlockFin _ | OPoll _ => set_viol m      (* composite ops are fed line by line, see feed *)
   | OBad => set_viol m
   end.
 
-Fixpoint mon_run (m : mon) (l : list (op * obs)) : mon :=
+(* m_bad also records a malformed trace (a line is missing) *)
+Definition short (m : mon) : mon := add_bad m true.
+
+(* one op consumes its observation lines: a composite op consumes one line per locked step it executed, the
+   next line expected being determined by the previous line *)
+Definition feed1 (m : mon) (x : op) (os : list obs) : mon * list obs :=
+  match os with
+  | o :: r => (mon_step m x o, r)
+  | [] => (short m, [])
+  end.
+Definition is_ok (os : list obs) : bool := match os with o :: _ => o_st o =? 0 | [] => false end.
+Definition ret1 (os : list obs) : bool := match os with o :: _ => o_a o =? 1 | [] => false end.
+
+Definition feed (m : mon) (x : op) (os : list obs) : mon * list obs :=
+  match x with
+  | OBlock s =>
+      if negb (is_ok os) then feed1 m (OReady s) os else
+      let a1 := feed1 m (OReady s) os in
+      if ret1 os then feed1 (fst a1) (OGet s) (snd a1) else
+      let a2 := feed1 (fst a1) (OReady s) (snd a1) in
+      if ret1 (snd a1) then feed1 (fst a2) (OGet s) (snd a2) else
+      let a3 := feed1 (fst a2) (OSuspend s) (snd a2) in
+      if ret1 (snd a2) then a3 else feed1 (fst a3) (OGet s) (snd a3)
+  | OBlockFin s => feed1 m (OGet s) os
+  | OPoll s =>
+      if negb (is_ok os) then feed1 m (OReady s) os else
+      let a1 := feed1 m (OReady s) os in
+      if ret1 os then feed1 (fst a1) (OGet s) (snd a1) else a1
+  | _ => feed1 m x os
+  end.
+
+Fixpoint mon_run (m : mon) (l : list op) (os : list obs) : mon :=
   match l with
-  | [] => m
-  | xo :: t => mon_run (mon_step m (fst xo) (snd xo)) t
+  | [] => match os with [] => m | _ => short m end
+  | x :: t => mon_run (fst (feed m x os)) t (snd (feed m x os))
   end.
 
 (* ---------- the judgement on what the monitor recorded ---------- *)
@@ -469,14 +578,11 @@ Fixpoint incr_b (start : Z) (d : list (Z * Z * Z)) : bool :=
   | [] => true
   | (p, v, n) :: t => (last_pos start t <? p) && incr_b start t
   end.
-(* skip modes (subscriber not subscribed in the future): the reported position is a published one;
-   skip_to_recent: the value is the newest at the time of delivery; skip_if_behind: it was published at a
-   position >= the reported one *)
+(* skip modes (subscriber not subscribed in the future): the value delivered at the reported position is the
+   one published there; skip_to_recent: that position is the newest one at the time of delivery *)
 Definition skipval_b (t : Z) (lg : list Z) (x : Z * Z * Z) : bool :=
   let '(p, v, n) := x in
-  (1 <=? p) && (p <=? n) && (n <=? zlen lg) &&
-  (if t =? 2 then v =? nthz lg (n - 1)
-   else memz v (firstn (Z.to_nat (n - p + 1)) (skipn (Z.to_nat (p - 1)) lg))).
+  (1 <=? p) && (p <=? n) && (n <=? zlen lg) && (v =? nthz lg (p - 1)) && (if t =? 2 then p =? n else true).
 
 Definition rec_good_b (lg : list Z) (o : option srec) : bool :=
   match o with
@@ -508,6 +614,9 @@ Definition decode (l : list Z) : op :=
   | [10] => OClose
   | [11; s] => if small s then OPosition (n s) else OBad
   | [12] => ODestroyPub
+  | [13; s] => if small s then OBlock (n s) else OBad
+  | [14; s] => if small s then OBlockFin (n s) else OBad
+  | [15; s] => if small s then OPoll (n s) else OBad
   | _ => OBad
   end.
 
@@ -527,26 +636,27 @@ Definition cfg_of (l : list Z) : option (Z * Z) :=
   | _ => None
   end.
 
-Definition pub_run_gen (sus : pubq -> nat -> Z -> pubq * bool) (ops : list (list Z)) : list (list Z) :=
+Definition pub_run_gen (sus : pubq -> nat -> Z -> pubq * bool) (gv : pubq -> nat -> Z -> pubq * gres)
+                       (ops : list (list Z)) : list (list Z) :=
   match ops with
   | [] => []
   | c :: t =>
       match cfg_of c with
       | Some (mn, mx) => encode_obs (ok3 mn (nth 1 c 0) 0)
-                         :: map encode_obs (fst (run_gen sus (tst0 mn mx) (map decode t)))
+                         :: map encode_obs (fst (run_gen sus gv (tst0 mn mx) (map decode t)))
       | None => map (fun _ => encode_obs rejected) ops
       end
   end.
-Definition pub_run := pub_run_gen advance_suspend_lk.
-Definition pub_run_old := pub_run_gen advance_suspend_lk_old.
+Definition pub_run := pub_run_gen advance_suspend_lk get_value_lk.
 
+(* the property oracle: the monitor's judgement on an observed trace (first line = the configuration line) *)
 Definition pub_oracle (ops obsl : list (list Z)) : bool :=
-  Nat.eqb (length ops) (length obsl) &&
   match ops, obsl with
   | c :: t, _ :: ot =>
       match cfg_of c with
-      | Some (mn, mx) => good_b (mon_run (mon0 mn mx) (combine (map decode t) (map dec_obs ot)))
-      | None => true
+      | Some (mn, mx) => good_b (mon_run (mon0 mn mx) (map decode t) (map dec_obs ot))
+      | None => Nat.eqb (length ops) (length obsl)
       end
-  | _, _ => true
+  | [], [] => true
+  | _, _ => false
   end.
